@@ -36,7 +36,9 @@ def build(reg):
     def lemma(fn, cls, fields, requires, same):
         shape = "M" + cls
         reg.shape(shape, cls=MSG + ":" + cls, fields=dict(BASE, **fields))
-        inl = [MSG + ":%s.%s" % (cls, x) for x in ["marshal", "parse", "__init__"] + list(same)] + [MSG + ":Message.__init__"]
+        inl = [MSG + ":%s.%s" % (cls, x) for x in ["marshal", "parse", "__init__"] + list(same)] + [MSG + ":Message.__init__", MSG + ":check_or_raise_extra", MSG + ":_validate_kwargs",
+                                                            MSG + ":MessageWithForwardFor.forward_for", MSG + ":MessageWithForwardFor.__init__",
+                                                            MSG + ":MessageWithForwardFor._init_forward_for"]
         reg.contract("specs.c03_lemmas:" + fn, name="C03/roundtrip[%s]" % cls, params={"m": "obj:" + shape},
                      returns="any", requires=requires,
                      ensures=["isinstance(result, %s)" % cls] + ["result.%s == m.%s" % (f, f) for f in same],
@@ -48,6 +50,88 @@ def build(reg):
     lemma("rt_registered", "Registered", {"_request": "int", "_registration": "int"}, [ID % "_request", ID % "_registration"],
           ["request", "registration"])
 
+    lemma("rt_event_received", "EventReceived", {"_publication": "int"}, [ID % "_publication"], ["publication"])
+    URI_OK = "uri_ok(m.%s, False, False, False)"
+    lemma("rt_unsubscribed", "Unsubscribed", {"_request": "int", "_subscription": "opt:int", "_reason": "opt:str"},
+          [ID % "_request", "implies(m._reason is not None, %s)" % (URI_OK % "_reason"),
+           # constructor invariant: a router-initiated revocation (request 0) names the subscription, an answer does not
+           "implies(m._subscription is not None, m._request == 0 and m._subscription != 0)"],
+          ["request", "subscription", "reason"])
+    lemma("rt_unregistered", "Unregistered", {"_request": "int", "_registration": "opt:int", "_reason": "opt:str"},
+          [ID % "_request", "implies(m._reason is not None, %s)" % (URI_OK % "_reason"),
+           "implies(m._registration is not None, m._request == 0 and m._registration != 0)"],
+          ["request", "registration", "reason"])
+
+    lemma("rt_goodbye", "Goodbye", {"_reason": "str", "_message": "opt:str", "_resumable": "opt:bool"},
+          [URI_OK % "_reason"], ["reason", "message", "resumable"])
+    lemma("rt_abort", "Abort", {"_reason": "str", "_message": "opt:str"}, [URI_OK % "_reason"], ["reason", "message"])
+    FF_NONE = "m._forward_for is None"      # forwarding chains (lists of principals) are outside this check
+    lemma("rt_cancel", "Cancel", {"_request": "int", "_mode": "opt:str", "_forward_for": "none"},
+          [ID % "_request", "m._mode is None or m._mode == 'skip' or m._mode == 'killnowait' or m._mode == 'kill'"],
+          ["request", "mode", "forward_for"])
+    lemma("rt_interrupt", "Interrupt", {"_request": "int", "_mode": "opt:str", "_reason": "opt:str", "_forward_for": "none"},
+          [ID % "_request", "m._mode is None or m._mode == 'killnowait' or m._mode == 'kill'",
+           "implies(m._reason is not None, %s)" % (URI_OK % "_reason")],
+          ["request", "mode", "reason", "forward_for"])
+    lemma("rt_unsubscribe", "Unsubscribe", {"_request": "int", "_subscription": "int", "_forward_for": "none"},
+          [ID % "_request", ID % "_subscription"], ["request", "subscription", "forward_for"])
+    lemma("rt_unregister", "Unregister", {"_request": "int", "_registration": "int", "_forward_for": "none"},
+          [ID % "_request", ID % "_registration"], ["request", "registration", "forward_for"])
+
 
 def extra_checks(tier, seed):
     return []
+
+
+# ------------------------------------------------------------------------------------------ replay on the real code
+_HARNESS = r'''
+import json
+import txaio
+txaio.use_asyncio()
+from autobahn.wamp import message as M
+from autobahn.wamp.serializer import JsonSerializer
+case = CASE
+cls = getattr(M, case["cls"])
+kw = {k: v for k, v in case["fields"].items()}
+out = {}
+try:
+    m = cls(**kw)
+except AssertionError as e:
+    print(json.dumps({"skip": "not a valid message object for this class: %r" % (e,)})); raise SystemExit
+raw = m.marshal()
+r1 = cls.parse(raw)
+diff = {}
+for f in kw:
+    a = getattr(m, f); b = getattr(r1, f)
+    if a != b:
+        diff[f] = [repr(a), repr(b)]
+# informative only (the codecs are outside the verified scope): the same message through the real JSON serializer
+try:
+    ser = JsonSerializer()
+    payload, is_binary = ser.serialize(m)
+    r2 = ser.unserialize(payload, is_binary)[0]
+    jdiff = {f: [repr(getattr(m, f)), repr(getattr(r2, f))] for f in kw if getattr(m, f) != getattr(r2, f)}
+except Exception as e:
+    jdiff = {"error": repr(e)}
+print(json.dumps({"diff": diff, "wire": repr(raw), "json_round_trip_diff": jdiff}))
+'''
+
+
+def replay(o):
+    from pyvc import replaylib as Rp
+    import re
+    unit = o.get("unit") or o.get("name", "")
+    mt = re.search(r"roundtrip\[(\w+)\]", unit)
+    if not mt:
+        return {"reproduced": False, "detail": "no replay harness for this unit"}
+    inp = o.get("inputs") or {}
+    fields = {}
+    for k, v in inp.items():
+        if k.startswith("m._") and k[3:] not in ("from_fbs", "serialized", "router_internal") and not k.startswith("m._correlation"):
+            if isinstance(v, (int, str, bool)) or v is None:
+                fields[k[3:]] = v
+    out = Rp.run_py(_HARNESS.replace("CASE", repr({"cls": mt.group(1), "fields": fields})))
+    bad = isinstance(out, dict) and bool(out.get("diff"))
+    return {"reproduced": bad, "case": {"cls": mt.group(1), "fields": fields}, "observed": out,
+            "detail": "the counterexample message built with the real class, marshalled and parsed with the real code; fields "
+                      "compared (the JSON serializer round trip is reported for information only)"}
